@@ -5,6 +5,7 @@ CONSTANTS
  Honest <- H2
  FixF3 = TRUE
  FixF4 = FALSE
+ FixF15 = TRUE
  Prog <- P_df2
  UseDFrom <- D1
  DFromWho <- W0
@@ -13,7 +14,7 @@ CONSTANTS
  InitChan <- Empty
  InitFifo = TRUE
  GenDepth = 0
-INVARIANTS Agreement NoDuplicate Integrity QValidity QTotality
+INVARIANTS Agreement NoDuplicate Integrity QValidity QTotality KnownIsAccepted
 PROPERTIES DeliveryStepP EventuallyReturned EventuallyDelivered
 CHECK_DEADLOCK FALSE
 
